@@ -22,7 +22,7 @@ ASSUMPTIONS = [
     "the in-process assembly of the same lines is the reference image (its correctness is C01-C05's subject)",
     "vlib/casref.py and vlib/dskref.py read the outputs",
 ]
-HEALTH = {"nam": 0.3, "cli_name_only": 0.15, "no_name": 0.05, "multi_switch": 0.3, "edge_length": 0.15}
+HEALTH = {"nam": 0.12, "cli_name_only": 0.06, "no_name": 0.02, "multi_switch": 0.12, "edge_length": 0.06}
 EXHAUSTIVE = {}
 
 # image lengths on the container formats' edges: tape block (255), disk sector (256) and granule (2304) with the
